@@ -103,6 +103,10 @@ def pair_obligations(run, funcs, pid='C03'):
             # the same closure seen from cell j towards i: swap the roles of idx and j
             Cji = z3.substitute(Cij, (a['idx'], z3.Int('tmp!swap')), (a['j'], a['idx']))
             Cji = z3.substitute(Cji, (z3.Int('tmp!swap'), a['j']))
+            # ... and cell j sees the same plane with the opposite (inward) normal
+            tmpn = [z3.Real('tmp!n%d' % k) for k in range(3)]
+            Cji = z3.substitute(Cji, *[(to_z3(x), t) for x, t in zip(a['n'].items, tmpn)])
+            Cji = z3.substitute(Cji, *[(t, -to_z3(x)) for x, t in zip(a['n'].items, tmpn)])
             valid = FR.valid_dim(dim, a['n'])
             pre = a['pre']
             mi, mj = a['mask'](a['idx']), a['mask'](a['j'])
